@@ -131,7 +131,7 @@ Section Pres.
     all: try (lazymatch goal with |- Inv_wake ?s1 =>
               eapply (ws_task_step s s1 a _ _ rest HO HS HI Hst); [solve_stacks|reflexivity..| | ];
               [ intros c0 Hne; first [ rewrite (tokb_toks s s1 c0 ltac:(solve_toks)); done | rewrite tokb_setstack, tokb_set_ne by done; done ]
-              | first [ apply evs_task_eq_refl; reflexivity | apply evs_reg_task | apply evs_unreg_task
+              | first [ apply evs_task_eq_refl; reflexivity | apply evs_reg_task | apply evs_unreg_task | apply evs_rereg_task
                       | eapply evs_task_eq_trans; [apply evs_reg_task|apply evs_reg_task] ] ] end; fail).
     (* DrainWaker tables *)
     all: try (match goal with E1 : t_dw_wake _ ?d0 = _ |- _ => rewrite (wc_dw_wake _ HW) in E1; destruct d0; try discriminate E1; injection E1 as <- end).
